@@ -176,6 +176,12 @@ def contexts():
         'dataclass-field-default-none': (lambda T: _dc([FieldM('inner_val', T, 'val', None)]), lambda v: {'inner_val': v}),
         'dataclass-field-kwonly-default-none': (lambda T: _dc([FieldM('alpha', Ty('int')), FieldM('inner_val', T, 'val', None, kw_only=True)],
                                                               in_format=('struct', 'tuple')), lambda v: {'alpha': 0, 'inner_val': v}),
+        # the very same object under two fields of one mapping (a YAML anchor / alias, a caller reusing a list): the Any field taking it
+        # first does not vouch for the typed one
+        'dataclass-field-shared-node': (lambda T: _dc([FieldM('alpha', Ty('any')), FieldM('inner_val', T)]), lambda v: {'alpha': v, 'inner_val': v}),
+        # passing the default object itself (None is a singleton: `Job(retries=None)` with `retries: int = None`) is still an argument
+        'dataclass-constructor-default-none': (lambda T: _dc([FieldM('inner_val', T, 'val', None)]), lambda v: {'inner_val': v}),
+        'dataclass-replace-default-none': (lambda T: _dc([FieldM('inner_val', T, 'val', None)]), lambda v: {'inner_val': v}),
         # a field that is not bound positionally (init=False) sits before the slot: positions must still line up
         'dataclass-field-tuple-after-uninitialised': (
             lambda T: _dc([FieldM('alpha', Ty('str')), FieldM('zz', Ty('any'), 'val', 0, init=False), FieldM('inner_val', T)], in_format=('tuple',)),
@@ -188,6 +194,8 @@ CALLS = {
     'dataclass-constructor': lambda T, d: T(**d),
     'dataclass-constructor-positional': lambda T, d: T(*d),
     'dataclass-replace': lambda T, d: T.make_unchecked(inner_val=None).__replace__(**d),
+    'dataclass-constructor-default-none': lambda T, d: T(**d),
+    'dataclass-replace-default-none': lambda T, d: T().__replace__(**d),
     # the same value arriving as a document: a null / empty document is None, not an empty mapping
     'yaml-document': lambda T, v: env.m_io.from_yaml(io.StringIO(yaml.safe_dump(v, sort_keys=False)), T),
     'json-document': lambda T, v: env.m_io.from_json(io.StringIO(json.dumps(v)), T),
